@@ -28,8 +28,8 @@ def run(tier, v):
     h = vlib.build_harness(["c03"])
     out = os.path.join(vlib.scratch(), "c03tv")
     s = vlib.run_driver(h, "c03_tv", out, {"maxlen": 4 if quick else 5, "shards": 16,
-                                            "random": 1500 if quick else 20000, "alpha6": not quick})
-    files = [os.path.join(out, "trace-%02d.ndjson" % i) for i in range(s["shards"])]
+                                            "random": 1500 if quick else 20000, "alpha6": not quick}, timeout=1200 if quick else 5400)
+    files = vlib.split_traces([os.path.join(out, "trace-%02d.ndjson" % i) for i in range(s["shards"])])
     res = vlib.validate_traces("WireTrace", "WireTrace.cfg", files, timeout=3000)
     nrej = 0
     for f, r in zip(files, res):
